@@ -22,6 +22,8 @@ def draw (k : Nat) : FV := .fin ((k : Rat) / (N : Rat))
 
 structure Band where
   target : Nat
+  /-- the declared probability of the transition -/
+  p : FV
   lo : FV
   hi : FV
   deriving Repr, DecidableEq, Inhabited
@@ -31,7 +33,7 @@ def bands : FV → List Trans → List Band
   | _, [] => []
   | c, t :: ts =>
     let c' := Fp.add Fp.f32 c (Fp.val32 t.prob)
-    ⟨t.target, c, c'⟩ :: bands c' ts
+    ⟨t.target, Fp.val32 t.prob, c, c'⟩ :: bands c' ts
 
 /-- the last running sum -/
 def total : FV → List Trans → FV
